@@ -195,7 +195,10 @@ func c01Systematic() []c01Case {
 			&ref.Lit{V: ref.Float(0.5)}, &ref.Lit{V: ref.Float(-100)}, &ref.Lit{V: ref.Int(-827)}, &ref.Lit{V: ref.Int(ref.MaxSafe - 1)}, &ref.Lit{V: ref.Int(-(ref.MaxSafe - 1))},
 			&ref.Lit{V: ref.Null}, &ref.Lit{V: ref.Bool(true)}, &ref.Lit{V: ref.Bool(false)},
 			&ref.Lit{V: ref.Str("é"), Src: `'é'`}, &ref.Lit{V: ref.Str("a\"b"), Src: `'a\"b'`}, &ref.Lit{V: ref.Str(" x"), Src: `' x'`},
-			&ref.Lit{V: ref.Str("a\\b'c\nd\re\tf\bg\fh")}, &ref.Lit{V: ref.Str("")}, &ref.Lit{V: ref.Str("😀 astral")}, &ref.Lit{V: ref.Str("{not a tag} // not a comment /* x */")},
+			&ref.Lit{V: ref.Str("a\\b'c\nd\re\tf\bg\fh")}, &ref.Lit{V: ref.Str("")},
+			&ref.Lit{V: ref.Str("\u00e9\tb")}, &ref.Lit{V: ref.Str("caf\u00e9\n")}, &ref.Lit{V: ref.Str("\u4e2d\n\u6587")}, &ref.Lit{V: ref.Str("\U0001F600\\x")}, &ref.Lit{V: ref.Str("\u00fc'\u00e9\n\u00ff")},
+			&ref.Binary{Op: "==", L: &ref.Lit{V: ref.Str("\u00e9\n")}, R: &ref.Binary{Op: "+", L: &ref.Lit{V: ref.Str("\u00e9")}, R: &ref.Lit{V: ref.Str("\n")}}},
+			&ref.MapLit{Keys: []string{"caf\u00e9\n", "\u4e2d\t"}, Vals: []ref.Expr{&ref.Lit{V: ref.Int(1)}, &ref.Lit{V: ref.Int(2)}}}, &ref.Lit{V: ref.Str("😀 astral")}, &ref.Lit{V: ref.Str("{not a tag} // not a comment /* x */")},
 			&ref.ListLit{}, &ref.MapLit{}, &ref.ListLit{Items: []ref.Expr{&ref.Lit{V: ref.Int(1)}, &ref.Lit{V: ref.Str("a")}, &ref.ListLit{Items: []ref.Expr{&ref.Lit{V: ref.Null}}}}},
 			&ref.DataRef{Name: "m", Acc: []ref.Acc{{Kind: 0, Key: "k"}}},
 		}
